@@ -13,6 +13,7 @@ mod m_waker;
 
 use std::io::{BufRead, Write};
 
+#[cfg(not(miri))]
 #[global_allocator]
 static GLOBAL: alloc::Track = alloc::Track;
 
